@@ -33,7 +33,11 @@ type viewState struct {
 	memo    map[string]string
 	store   *storage.BadgerStore
 	dir     string
-	initF   []string // the rinit line, to rebuild the node on a re-opened store
+	initF   []string // the init / rinit line, to rebuild the node (re-opened store, fresh twin)
+	chainF  []string // the last chain line
+	loaded  bool     // LoadConsensusNodes has run on the long-lived node
+	memoOff bool     // answers may legitimately change (records dated before asked timestamps follow)
+	twin    *memState // fresh node of the current load (rebuilt per query in future-query cases)
 	pending int
 }
 
@@ -61,7 +65,9 @@ var viewLast *viewState // the previous case's store is closed at the next reset
 
 func viewOpen(vs *viewState) {
 	custom := &config.Custom{}
-	store, err := storage.NewBadgerStore(custom, vs.dir)
+	// same store as NewBadgerStore but without the per-commit fsync and with an 8 MiB memtable (opening the default 64 MiB arenas dominated the run)
+	// (durability is not what C11 is about; Close flushes before the store is re-opened)
+	store, err := storage.VerifC21NewBadgerStore(custom, vs.dir, 8<<20, false)
 	if err != nil {
 		panic(err)
 	}
@@ -156,6 +162,55 @@ func viewIsQuery(op string) bool {
 	return false
 }
 
+func viewIsNodeQuery(op string) bool {
+	switch op {
+	case "list", "seq", "keys", "thr", "pledging", "removing", "elect", "chain", "c10", "c10f":
+		return true
+	}
+	return false
+}
+
+// viewFreshAnswer: the same query on a node constructed for this purpose from the long-lived node's
+// store (same init line, LoadConsensusNodes, same chain line) — "querying in any order".
+func viewFreshAnswer(st *State, vs *viewState, f []string) string {
+	ms := memGet(st)
+	fi := vs.initF
+	epoch := u64(fi[1])
+	net, self, signer := crypto.Hash(unhx32(fi[2])), crypto.Hash(unhx32(fi[3])), crypto.Key(unhx32(fi[4]))
+	g := int(u64(fi[5]))
+	ids := make([]crypto.Hash, g)
+	for i := range ids {
+		ids[i] = crypto.Hash(unhx32(fi[6+i]))
+	}
+	twin := vs.twin
+	if twin == nil || vs.memoOff {
+		var node *kernel.Node
+		if vs.store != nil {
+			node = kernel.VerifNewNode(epoch, net, self, vs.store, memSharedCache(), ids)
+		} else {
+			node = kernel.VerifNewNode(epoch, net, self, ms.store, memSharedCache(), ids)
+		}
+		node.VerifSetSigner(signer)
+		if err := node.LoadConsensusNodes(); err != nil {
+			return "reject"
+		}
+		twin = &memState{node: node, store: ms.store, epoch: ms.epoch, mainnet: ms.mainnet, genesis: ms.genesis}
+		vs.twin = twin
+	}
+	tst := &State{V: map[string]any{"mem": twin}, Dir: st.Dir}
+	if f[0] != "chain" && vs.chainF != nil {
+		memExecCommon(tst, vs.chainF)
+	}
+	switch f[0] {
+	case "c10":
+		return memC10(twin, u64(f[1]), u64(f[2])).Out
+	case "c10f":
+		return memC10F(twin, u64(f[1]), u64(f[2]), f[3] == "1").Out
+	}
+	res, _ := memExecCommon(tst, f)
+	return res.Out
+}
+
 func viewExec(st *State, line string) Result {
 	f := goPart(line)
 	if len(f) == 0 {
@@ -167,7 +222,16 @@ func viewExec(st *State, line string) Result {
 	}
 	vs := viewGet(st)
 	res := viewExec1(st, vs, f, line)
-	if viewIsQuery(f[0]) && res.PropKey == "" {
+	if viewIsNodeQuery(f[0]) && res.PropKey == "" && vs.loaded {
+		// order independence: a node built now from the same records, never asked anything
+		fresh, _, _ := Catch(func() string { return viewFreshAnswer(st, vs, f) })
+		res.Tags = append(res.Tags, "fresh-twin")
+		if fresh != res.Out {
+			res.PropKey = "C11:answer-depends-on-query-history"
+			res.PropDesc = fmt.Sprintf("%q: the long-lived node (queried and reloaded before) answers %.200q, a fresh node loaded with the same records answers %.200q", strings.Join(f, " "), res.Out, fresh)
+		}
+	}
+	if viewIsQuery(f[0]) && res.PropKey == "" && !vs.memoOff {
 		key := strings.Join(f, " ")
 		if f[0] == "keys" || f[0] == "c10" { // answers depend on the chain selected before
 			key = fmt.Sprint(st.V["chainline"]) + " / " + key
@@ -189,6 +253,15 @@ func viewExec1(st *State, vs *viewState, f []string, line string) Result {
 	switch f[0] {
 	case "chain":
 		st.V["chainline"] = strings.Join(f, " ")
+		vs.chainF = f
+	case "init":
+		vs.initF = f
+	case "load":
+		vs.loaded = true
+		vs.twin = nil
+	case "nomemo":
+		vs.memoOff = true
+		return Result{Out: "ok", Tags: []string{"future-query-case"}}
 	case "rinit":
 		kernel.TestMockReset()
 		dir, err := os.MkdirTemp(st.Dir, "badger-")
@@ -216,6 +289,8 @@ func viewExec1(st *State, vs *viewState, f []string, line string) Result {
 		return Result{Out: out, LeanIn: fmt.Sprintf("%s | wnode %s %s", strings.Join(f, " "), out, strings.Join(f[1:7], " ")),
 			Tags: []string{"wnode:" + f[5] + ":" + out}}
 	case "rload":
+		vs.loaded = true
+		vs.twin = nil
 		ms := memGet(st)
 		out, _, _ := Catch(func() string {
 			if err := ms.node.LoadConsensusNodes(); err != nil {
@@ -258,6 +333,8 @@ func viewExec1(st *State, vs *viewState, f []string, line string) Result {
 		}
 		return res
 	case "cfresh":
+		vs.loaded = false
+		vs.twin = nil
 		vs.store.Close()
 		viewOpen(vs)
 		viewNode(st, vs)
@@ -269,6 +346,11 @@ func viewExec1(st *State, vs *viewState, f []string, line string) Result {
 	if f[0] == "c10" {
 		res := memC10(memGet(st), u64(f[1]), u64(f[2]))
 		res.PropKey, res.PropDesc = "", "" // C10's own check; here only the answer matters
+		return res
+	}
+	if f[0] == "c10f" {
+		res := memC10F(memGet(st), u64(f[1]), u64(f[2]), f[3] == "1")
+		res.PropKey, res.PropDesc = "", ""
 		return res
 	}
 	return Result{Out: "bad-op"}
@@ -451,7 +533,121 @@ func viewGenBadger(r *Rand, tier string) []string {
 	return lines
 }
 
+// viewGenFuture: a long-lived node is asked about timestamps AHEAD of its ledger (inside node-operation
+// windows), then records dated before those windows are appended (a removal / pledge / accept that
+// changes who the oldest accepted node is, or makes the window's candidate undefined), the node
+// reloads and is asked again. Every answer is compared with a fresh node (property mode) and the model.
+func viewGenFuture(r *Rand, tier string) []string {
+	h := &memHistory{}
+	if r.Chance(1, 3) {
+		h.mainnet, h.net = true, memMainnetId()
+		h.epoch = memForkAt - uint64(r.Range(0, 40))*memDay - config.KernelNodeAcceptTimeBegin*memHour
+	} else {
+		h.net = crypto.Blake3Hash(r.Bytes(8))
+		h.epoch = uint64(1600000000+r.Intn(100000000)) * memSecond
+	}
+	g := r.Range(8, 14)
+	for k := 0; k < g; k++ {
+		h.genesis = append(h.genesis, k)
+		h.recs = append(h.recs, memRec{ts: h.epoch, key: k, pay: 1000 + k, state: "A", tx: crypto.Blake3Hash([]byte(fmt.Sprintf("tx %d g", k)))})
+	}
+	h.nextKey = g
+	if r.Chance(1, 2) {
+		h.extend(r, h.epoch, r.Range(1, 3))
+	}
+	lines := []string{"reset", h.initLine(Pick(r, h.genesis)), "nomemo", h.loadLine(r, h.recs)}
+	windowStart := func(after uint64, plusDays int) uint64 {
+		day := (after-h.epoch)/memDay + uint64(plusDays)
+		return h.epoch + day*memDay + config.KernelNodeAcceptTimeBegin*memHour
+	}
+	ask := func(starts []uint64) []string {
+		var q []string
+		for _, st := range starts {
+			for k := r.Range(2, 4); k > 0; k-- {
+				ts := st + Pick(r, []uint64{0, 1, memHour, 3*memHour + 7, 7*memHour - 1})
+				switch r.Intn(8) {
+				case 0:
+					q = append(q, fmt.Sprintf("removing %d", ts))
+				case 1:
+					q = append(q, fmt.Sprintf("thr %d %d", ts, r.Intn(2)))
+				case 2:
+					q = append(q, fmt.Sprintf("keys %d %d", r.Intn(2), ts))
+				case 3:
+					q = append(q, fmt.Sprintf("c10 %d %d", r.Intn(2), ts))
+				case 4:
+					q = append(q, fmt.Sprintf("c10f %d %d 0", r.Intn(2), ts))
+				case 5:
+					q = append(q, fmt.Sprintf("list %d %d", ts, r.Intn(2)), fmt.Sprintf("pledging %d", ts))
+				case 6:
+					q = append(q, fmt.Sprintf("elect %d %d", Pick(r, []int{1, 6, 9, 19, 20}), ts))
+				default:
+					q = append(q, fmt.Sprintf("removing %d", ts), fmt.Sprintf("thr %d 1", ts))
+				}
+			}
+		}
+		return q
+	}
+	lines = append(lines, "chain state")
+	var starts []uint64
+	for round := r.Range(1, 3); round > 0; round-- {
+		last := h.lastTs()
+		// windows one to three days ahead of the ledger
+		w1 := windowStart(last, r.Range(1, 2))
+		w2 := w1 + uint64(r.Range(1, 2))*memDay
+		starts = append(starts, w1, w2)
+		qs := ask(starts)
+		lines = append(lines, qs...)
+		// records dated after the ledger head and before w1 (mostly >= 12 h before it)
+		latest, order := h.latest()
+		var accepted []int
+		for _, k := range order {
+			if latest[k].state == "A" {
+				accepted = append(accepted, k)
+			}
+		}
+		gapEnd := w1 - 1
+		if r.Chance(3, 4) && w1 > last+13*memHour {
+			gapEnd = w1 - 12*memHour - uint64(r.Intn(3))
+		}
+		ts := last + 1 + uint64(r.Intn(int(gapEnd-last)))
+		if ts > gapEnd {
+			ts = gapEnd
+		}
+		var rc memRec
+		switch x := r.Intn(10); {
+		case x < 6 && len(accepted) > 0: // the oldest accepted node leaves: another node becomes the candidate
+			first := accepted[0]
+			for _, k := range accepted {
+				a, b := latest[k], latest[first]
+				if a.ts < b.ts || (a.ts == b.ts && h.id(k).String() < h.id(first).String()) {
+					first = k
+				}
+			}
+			rc = memRec{key: first, pay: 1000 + first, state: "R"}
+		case x < 8:
+			rc = memRec{key: h.nextKey, pay: 1000 + h.nextKey, state: "P"}
+			h.nextKey++
+		default:
+			rc = memRec{key: h.nextKey, pay: 1000 + h.nextKey, state: "A"}
+			h.nextKey++
+		}
+		for h.has(ts, rc.key) {
+			ts++
+		}
+		rc.ts = ts
+		rc.tx = crypto.Blake3Hash([]byte(fmt.Sprintf("tx %d %d %s", rc.key, ts, rc.state)))
+		h.recs = append(h.recs, rc)
+		lines = append(lines, h.loadLine(r, h.recs))
+		lines = append(lines, qs...)
+		lines = append(lines, ask(starts)...)
+	}
+	return lines
+}
+
 func viewGen(r *Rand, i int, tier string) []string {
+	if i%4 == 1 {
+		return viewGenFuture(r, tier)
+	}
 	if i%4 == 3 {
 		return viewGenBadger(r, tier)
 	}
@@ -461,7 +657,7 @@ func viewGen(r *Rand, i int, tier string) []string {
 func init() {
 	Register(&Subsystem{
 		Name: "views",
-		Rule: "case = membership history loaded in 2–4 phases (each phase adds records at or after the last loaded timestamp, in a different store order; 1 case in 4 writes them through the real Badger node-state and custodian writers and re-opens the store), every query of earlier phases repeated after each load; non-trivial = a query with a non-empty answer",
+		Rule: "case = membership history loaded in 2–4 phases (each phase adds records at or after the last loaded timestamp, in a different store order; 1 case in 4 writes them through the real Badger node-state and custodian writers and re-opens the store), every query of earlier phases repeated after each load; 1 case in 4 asks about operation windows ahead of the ledger, appends a record dated before them (removal of the oldest accepted node / pledge / accept) and asks again; every node query is also put to a fresh node built from the same records; non-trivial = a query with a non-empty answer",
 		Gen:  viewGen,
 		Exec: viewExec,
 	})
